@@ -118,7 +118,10 @@ macro_rules! field_type {
             // ---- forwarding table
             for row in fwd.as_array().ok_or("fwd")? {
                 let (m, kind, g) = (row[0].as_str().unwrap(), row[1].as_str().unwrap(), row[2].as_str().unwrap());
-                for s in 0..samples {
+                // after the random samples: operands whose real part is exactly +0.0 / -0.0 while their derivative parts are
+                // not (a zero leg of hypot, a negative-zero sign for copysign, ties of max / min at zero, ...)
+                let zero_ok = matches!(m, "hypot" | "atan2" | "copysign" | "max" | "min" | "clamp" | "scale" | "mul_add" | "modulus_squared" | "abs" | "modulus" | "norm1");
+                for s in 0..(samples + if zero_ok { 4 } else { 0 }) {
                     let dom: (f64, f64) = match m {
                         "asin" | "acos" | "atanh" => (-0.9, 0.9),
                         "acosh" => (1.1, 6.0),
@@ -131,8 +134,12 @@ macro_rules! field_type {
                     let mut xr = dom.0 + (dom.1 - dom.0) * rng.unit();
                     if m == "try_sqrt" && s % 4 == 3 { xr = -xr; }
                     if f32mode { xr = (xr as f32) as f64; }
+                    let special = if s >= samples { s - samples } else { 99 };
+                    if special == 2 { xr = 0.0; }
+                    if special == 3 { xr = -0.0; }
                     let x: T = mk(&mut rng, xr);
                     let yr = { let v = 0.3 + 2.0 * rng.unit(); if matches!(m, "scale" | "atan2" | "hypot" | "mul_add" | "max" | "min" | "clamp" | "copysign") && rng.below(2) == 0 { -v } else { v } };
+                    let yr = if special == 0 { 0.0 } else if special == 1 { -0.0 } else { yr };
                     let y: T = mk(&mut rng, if f32mode { (yr as f32) as f64 } else { yr });
                     let z: T = mk(&mut rng, if f32mode { ((yr + 1.5) as f32) as f64 } else { yr + 1.5 });
                     let case = format!("{key}|{m}");
